@@ -8,6 +8,7 @@ use crate::{common::FixedPoint, core::SourceSpan};
 const SECOND_PER_DAY: u64 = Second::per(Day) as u64;
 const SECOND_PER_HOUR: u64 = Second::per(Hour) as u64;
 const SECOND_PER_MINUTE: u64 = Second::per(Minute) as u64;
+const NANOSECOND_PER_SECOND: u128 = 1_000_000_000;
 
 // See section 2.2.2
 #[derive(Debug, PartialEq, Clone)]
@@ -26,18 +27,12 @@ impl DurationLiteral {
     /// assert_eq!(DurationLiteral::days(FixedPoint::parse("1").unwrap()).interval, Duration::days(1));
     /// ```
     pub fn days(days: FixedPoint) -> Self {
-        // The whole part is entirely seconds
-        let whole_seconds = Duration::days(days.whole as i64);
+        Self::try_days(days).expect("duration in range")
+    }
 
-        // The fraction has both seconds and one part femptoseconds
-        let fraction_seconds = Duration::microseconds(
-            (days.femptos * SECOND_PER_DAY / FixedPoint::FRACTIONAL_UNITS) as i64,
-        );
-
-        Self {
-            span: days.span,
-            interval: whole_seconds + fraction_seconds,
-        }
+    /// Same as `days` but returns an error if the duration is not representable.
+    pub fn try_days(days: FixedPoint) -> Result<Self, &'static str> {
+        Self::try_from_units(days, SECOND_PER_DAY as u128 * NANOSECOND_PER_SECOND)
     }
 
     /// Create a new `DurationLiteral` with the given number of hours.
@@ -50,18 +45,12 @@ impl DurationLiteral {
     /// assert_eq!(DurationLiteral::seconds(FixedPoint::parse("1.001").unwrap()).interval, Duration::seconds(1) + Duration::milliseconds(1));
     /// ```
     pub fn hours(hours: FixedPoint) -> Self {
-        // The whole part is entirely seconds
-        let whole_seconds = Duration::hours(hours.whole as i64);
+        Self::try_hours(hours).expect("duration in range")
+    }
 
-        // The fraction has both seconds and one part femptoseconds
-        let fraction_seconds = Duration::microseconds(
-            (hours.femptos * SECOND_PER_HOUR / FixedPoint::FRACTIONAL_UNITS) as i64,
-        );
-
-        Self {
-            span: hours.span,
-            interval: whole_seconds + fraction_seconds,
-        }
+    /// Same as `hours` but returns an error if the duration is not representable.
+    pub fn try_hours(hours: FixedPoint) -> Result<Self, &'static str> {
+        Self::try_from_units(hours, SECOND_PER_HOUR as u128 * NANOSECOND_PER_SECOND)
     }
 
     /// Create a new `DurationLiteral` with the given number of minutes.
@@ -74,17 +63,12 @@ impl DurationLiteral {
     /// assert_eq!(DurationLiteral::seconds(FixedPoint::parse("1.001").unwrap()).interval, Duration::seconds(1) + Duration::milliseconds(1));
     /// ```
     pub fn minutes(minutes: FixedPoint) -> Self {
-        // The whole part is entirely seconds
-        let whole_seconds = Duration::minutes(minutes.whole as i64);
+        Self::try_minutes(minutes).expect("duration in range")
+    }
 
-        // The fraction has both seconds and one part femptoseconds
-        let fraction_seconds = Duration::microseconds(
-            (minutes.femptos * SECOND_PER_MINUTE / FixedPoint::FRACTIONAL_UNITS) as i64,
-        );
-        Self {
-            span: minutes.span,
-            interval: whole_seconds + fraction_seconds,
-        }
+    /// Same as `minutes` but returns an error if the duration is not representable.
+    pub fn try_minutes(minutes: FixedPoint) -> Result<Self, &'static str> {
+        Self::try_from_units(minutes, SECOND_PER_MINUTE as u128 * NANOSECOND_PER_SECOND)
     }
 
     /// Create a new `DurationLiteral` with the given number of seconds.
@@ -97,12 +81,12 @@ impl DurationLiteral {
     /// assert_eq!(DurationLiteral::seconds(FixedPoint::parse("1.001").unwrap()).interval, Duration::seconds(1) + Duration::milliseconds(1));
     /// ```
     pub fn seconds(seconds: FixedPoint) -> Self {
-        let whole_seconds = Duration::seconds(seconds.whole as i64);
-        let fraction_seconds = Duration::nanoseconds((seconds.femptos / 1_000_000) as i64);
-        Self {
-            span: seconds.span,
-            interval: whole_seconds + fraction_seconds,
-        }
+        Self::try_seconds(seconds).expect("duration in range")
+    }
+
+    /// Same as `seconds` but returns an error if the duration is not representable.
+    pub fn try_seconds(seconds: FixedPoint) -> Result<Self, &'static str> {
+        Self::try_from_units(seconds, NANOSECOND_PER_SECOND)
     }
 
     /// Create a new `DurationLiteral` with the given number of milliseconds.
@@ -117,21 +101,43 @@ impl DurationLiteral {
     /// assert_eq!(DurationLiteral::milliseconds(FixedPoint::parse("0.001").unwrap()).interval, Duration::microseconds(1));
     /// ```
     pub fn milliseconds(millis: FixedPoint) -> Self {
-        let whole_seconds = Duration::seconds((millis.whole / 1_000) as i64);
-        let whole_milliseconds = Duration::milliseconds((millis.whole % 1_000) as i64);
+        Self::try_milliseconds(millis).expect("duration in range")
+    }
 
-        let fraction_nanoseconds = Duration::nanoseconds((millis.femptos / 1_000_000_000) as i64);
-        Self {
-            span: millis.span,
-            interval: whole_seconds + whole_milliseconds + fraction_nanoseconds,
-        }
+    /// Same as `milliseconds` but returns an error if the duration is not representable.
+    pub fn try_milliseconds(millis: FixedPoint) -> Result<Self, &'static str> {
+        Self::try_from_units(millis, NANOSECOND_PER_SECOND / 1_000)
+    }
+
+    /// Creates a duration of `value` units, each unit being the given number of nanoseconds.
+    /// The result is exact except that a fraction of a nanosecond is dropped.
+    fn try_from_units(value: FixedPoint, nanoseconds_per_unit: u128) -> Result<Self, &'static str> {
+        let whole = value.whole as u128 * nanoseconds_per_unit;
+        let fraction =
+            value.femptos as u128 * nanoseconds_per_unit / FixedPoint::FRACTIONAL_UNITS as u128;
+        let total = whole + fraction;
+        let seconds =
+            i64::try_from(total / NANOSECOND_PER_SECOND).map_err(|e| "duration out of range")?;
+        let nanoseconds = (total % NANOSECOND_PER_SECOND) as i32;
+        Ok(Self {
+            span: value.span,
+            interval: Duration::new(seconds, nanoseconds),
+        })
     }
 
     pub fn plus(&self, other: DurationLiteral) -> Self {
-        DurationLiteral {
+        self.try_plus(other).expect("duration in range")
+    }
+
+    /// Same as `plus` but returns an error if the sum is not representable.
+    pub fn try_plus(&self, other: DurationLiteral) -> Result<Self, &'static str> {
+        Ok(DurationLiteral {
             span: SourceSpan::join(&self.span, &other.span),
-            interval: self.interval + other.interval,
-        }
+            interval: self
+                .interval
+                .checked_add(other.interval)
+                .ok_or("duration out of range")?,
+        })
     }
 }
 
